@@ -90,7 +90,7 @@ func joinInfix(r *rand.Rand, toks []string, minimal bool) string {
 	glue := func(s string) bool { return s == "(" || s == ")" || s == "[" || s == "]" || s == "," }
 	identStart := func(s string) bool {
 		c := s[0]
-		return c == '(' || (c >= 'a' && c <= 'z') || (c >= 'A' && c <= 'Z')
+		return c == '(' || c == '_' || c >= 0x80 || (c >= 'a' && c <= 'z') || (c >= 'A' && c <= 'Z')
 	}
 	for i, t := range toks {
 		if i > 0 {
@@ -175,8 +175,21 @@ func famInfix() {
 		id++
 		envs := []Env{randEnv(r), randEnv(r), randEnv(r)}
 		mask := []int{0, 15, r.Intn(16)}[r.Intn(3)]
+		undef := false
+		if id%3 == 2 {
+			// identifiers spelled with underscores, dots, digits and non-ASCII letters (undefined-variable mode)
+			ren := map[string]string{"x": "_u", "y": "v.w", "z": "q1", "n": "n_2", "m": "_", "s": "s.t.u"}
+			t = renameVars(t, ren)
+			prefix = t.Src()
+			undef = true
+			for _, e := range envs {
+				for from, to := range ren {
+					e[to] = e[from]
+				}
+			}
+		}
 		obs := func(src string, infix bool) M {
-			c := compileVariant(src, ConfOpts{Mask: mask, Infix: infix}, false)
+			c := compileVariant(src, ConfOpts{Mask: mask, Infix: infix, Undefined: undef}, false)
 			o := M{"cout": c.rec["cout"], "dump": "", "table": "", "dok": false, "res": []interface{}{}}
 			if c.expr != nil {
 				o["dump"], o["table"] = c.rec["dump"], c.rec["table"]
@@ -194,7 +207,7 @@ func famInfix() {
 			}
 			return o
 		}
-		rec := M{"fam": "infix", "for": "C15", "id": id, "src": prefix, "tree": t, "m": maskRec(mask), "prefix": obs(prefix, false)}
+		rec := M{"fam": "infix", "for": "C15", "id": id, "src": prefix, "tree": t, "m": maskRec(mask), "undef": undef, "prefix": obs(prefix, false)}
 		vars := []interface{}{}
 		for k, spec := range []struct {
 			pp      int
@@ -208,6 +221,19 @@ func famInfix() {
 		rec["infix"] = vars
 		emit(rec)
 	}
+}
+
+func renameVars(t *Tree, ren map[string]string) *Tree {
+	n := &Tree{K: t.K, V: t.V, Name: t.Name, Kids: []*Tree{}}
+	if t.K == "v" {
+		if to, ok := ren[t.V.(string)]; ok {
+			n.V = to
+		}
+	}
+	for _, k := range t.Kids {
+		n.Kids = append(n.Kids, renameVars(k, ren))
+	}
+	return n
 }
 
 func init() { families["infix"] = famInfix }
